@@ -529,6 +529,11 @@ def _attached_ref(r, root, tys):
         if cands:
             f = r.choice(cands)
             return {'t': 'foreign', 'cls': f[2], 'text': f[1], 'path': f[3]}
+    if (not tys or models.BlockComment in tys) and r.random() < 0.5:
+        # a comment that is in the document but belongs to nobody (not reachable through any model)
+        loose = [i for i, t in enumerate(root.token_store) if isinstance(t, models.BlockComment) and not t.claimed]
+        if loose:
+            return {'t': 'tok-at', 'i': r.choice(loose)}
     cands = [list(p) for p, m in intro.walk_api(root) if p and isinstance(m, tuple(tys) or (base.RawModel,))]
     if not cands:
         return None
